@@ -192,9 +192,11 @@ pub struct GenCfg {
     pub defaults: bool,
 }
 
-const NAME_POOL: [&str; 24] = [
+const NAME_POOL: [&str; 33] = [
     "alpha", "beta", "gamma", "delta", "item-one", "itemTwo", "x1", "y2-z", "count", "flag", "payload", "kind", "inner", "outer", "left",
     "right", "head", "tail-end", "aB", "c-d-e", "value1", "node", "leaf", "q",
+    // TypeScript keywords that are ordinary ASN.1 identifiers (and no Rust keywords)
+    "class", "default", "case", "with", "delete", "new", "void", "function", "var",
 ];
 
 pub struct TyGen<'a> {
